@@ -544,12 +544,59 @@ def _strings_and_uids(ctx):
 # =====================================================================================================
 # (c) constructors and converters: input snapshots, copy / no-copy, strict write, read back, identifiers
 # =====================================================================================================
+_OPEN = None
+
+
+def _open_finding_known(fid):
+    """is the open finding registered (known_findings.json)?  Input classes that only reproduce a registered open finding are
+    generated only then, so that they are attributed instead of reported as new."""
+    global _OPEN
+    if _OPEN is None:
+        import json
+        import os
+        path = os.path.join(os.path.dirname(os.path.dirname(os.path.dirname(os.path.abspath(__file__)))), 'known_findings.json')
+        try:
+            _OPEN = {f['id'] for f in json.load(open(path)).get('findings', []) if f.get('status') == 'open'}
+        except Exception:  # noqa: BLE001
+            _OPEN = set()
+    return fid in _OPEN
+
+
+def attribute(failure, open_findings):
+    """oracle failure -> id of the open finding it is an instance of (call site + input class), or None"""
+    case = failure.get('case') or {}
+    ids = {f['id'] for f in open_findings}
+    if 'C20-non-latin1-text-unwritable' in ids and isinstance(case, dict) and case.get('text_class') == 'non-latin1' \
+            and str(failure.get('site', '')).endswith('/file') and str(failure.get('detail', '')).startswith('strict write refused'):
+        return 'C20-non-latin1-text-unwritable'
+    return None
+
+
+def _charset_witness(text_value):
+    """the witness of C20-non-latin1-text-unwritable: a segmentation with that series description, written strictly"""
+    import logging
+    import highdicom as hd
+    from gen import sources
+    logging.disable(logging.CRITICAL)
+    try:
+        src = sources.ct_series(2, 4, 4)
+        seg = hd.seg.Segmentation(src, np.ones((2, 4, 4), np.uint8), 'BINARY', [sources.seg_description(1)],
+                                  series_instance_uid=hd.UID(), series_number=1, sop_instance_uid=hd.UID(), instance_number=1,
+                                  manufacturer='m', manufacturer_model_name='mm', software_versions='1',
+                                  device_serial_number='1', series_description=text_value)
+        msg, _ = file_clause(seg)
+    finally:
+        logging.disable(logging.NOTSET)
+    return msg
+
+
 def _subject(ctx, idx):
     """case idx -> subject dict (pure function of seed, idx)"""
     from gen import objects
     r = ctx.rng('subject', idx)
     f = objects.SUBJECTS[idx % len(objects.SUBJECTS)]
     del objects.GIVEN_UIDS[:]
+    objects.NON_LATIN1 = _open_finding_known('C20-non-latin1-text-unwritable')
     s = f(r, ctx.np_rng('subject', idx))
     s['given_uids'] = set(objects.GIVEN_UIDS)
     return s
@@ -589,6 +636,9 @@ def _run_subject(ctx, idx, collect=None):
         ctx.hist('subject_outcome', 'generator-error')
         return
     case = {'subject': s['name'], 'idx': idx, 'variant': repr(s['variant'])}
+    if s.get('text_class'):
+        case['text_class'] = s['text_class']
+        ctx.hist('text_class', s['text_class'])
     before = {k: snap(v) for k, v in s['inputs'].items()}
     try:
         obj = s['call'](**s['inputs'])
@@ -973,6 +1023,9 @@ def replay(ctx, case):
         except ValueError:
             return None
         return None
+    if 'charset_witness' in case:
+        msg = _charset_witness(case['charset_witness'])
+        return [{'case': case, 'detail': msg}] if msg else None
     if 'subject' in case and 'idx' in case:
         _run_subject(sub, case['idx'])
         return sub.failures[:3] or None
